@@ -1,3 +1,5 @@
+import KmipGen.CodecSrc
+import KmipModel.ExpectCodec
 import KmipProofs.SpecKeys
 import KmipGen.Schema
 /-
@@ -22,5 +24,17 @@ theorem GenC19_nesting :
   decide +kernel
 
 theorem GenC19_counts : KmipGen.numTypes = 58 ∧ KmipGen.numFields = 195 := by decide
+
+end Kmip
+
+/-
+  Codec source tie (re-checked against /repo's current source on every run): the normalised source of every function of
+  the groups below, as kvscan reads it from /repo now, is the text the model was validated against (KmipModel/ExpectCodec.lean;
+  readable form in KmipModel/ExpectCodecSrc.txt). See harness/cmd/kvscan/srcdigest.go for the normalisation.
+-/
+namespace Kmip
+
+/-- struct descriptors (fields.go, types.go) -/
+theorem GenC19_codec_src_desc : KmipGen.codecSrc_desc = ExpectCodec.codecSrc_desc := by decide
 
 end Kmip
